@@ -38,7 +38,9 @@ Rsp == /\ Is("res") /\ pend[T.c].st = "lin"
        /\ pend' = [pend EXCEPT ![T.c] = Idle] /\ l' = l + 1 /\ UNCHANGED <<store, want>>
 Next == Base \/ Inv \/ Rsp \/ \E c \in Clients : Lin(c)
 Spec == Init /\ [][Next]_vars
-HW == TLCSet(1, IF TLCGet(1) > l THEN TLCGet(1) ELSE l)
+\* high-water mark; once the whole trace has been matched nothing else needs exploring
+HW == /\ TLCSet(1, IF TLCGet(1) > l THEN TLCGet(1) ELSE l)
+      /\ (TLCGet(1) <= Len(Trace) \/ l > Len(Trace))
 ASSUME TLCSet(1, 0)
 \* diagnostics over the whole trace
 HistOf(i) == Cardinality({j \in 1..i : Trace[j].ev = "base"})
